@@ -4,6 +4,7 @@ package main
 
 import (
 	"fmt"
+	"os"
 	"go/constant"
 	"go/types"
 	"strings"
@@ -37,6 +38,7 @@ type Env struct {
 	errs      []string
 	nquant    *int
 	noFc      bool // closed contract: do not resolve the caller's locals
+	qnames    []Term        // SMT names of all quantifier variables in scope (never shadowed)
 	cells     map[string]SV // captured variables of a closure contract: name -> pointer to the variable
 	cellVars  bool
 }
@@ -113,13 +115,13 @@ func (env *Env) load(lv *LV) SV {
 		// ground reads (no bound variable in the address) still get their type facts
 		ground := true
 		for _, t := range out.T {
-			for _, b := range env.bound {
+			for _, b := range env.qnames {
 				if strings.Contains(t, b) {
 					ground = false
 				}
 			}
 		}
-		if ground {
+		if ground && os.Getenv("CBV_NO_GROUNDWF") == "" {
 			env.vc.assert(env.vc.wf(out, env.st.alloc))
 		}
 		return out
@@ -268,6 +270,7 @@ func (env *Env) eval(e Expr) SV {
 			*env.nquant++
 			bn := fmt.Sprintf("%s_q%d", v, *env.nquant)
 			sub.bound[v] = bn
+			sub.qnames = append(append([]Term{}, sub.qnames...), bn)
 			delete(sub.vars, v)
 			binders = append(binders, "("+bn+" Int)")
 		}
